@@ -10,7 +10,7 @@
    (index-resolution) time and an untimed one by its position among ALL timed messages of the log. *)
 From Coq Require Import ZArith List Bool Sorted.
 From FEC Require Import Generated.LogReaderConsts Models.FileIndexOpsM Models.LogReaderM
-  Proofs.FileIndexOpsP Proofs.LogReaderP Proofs.LogReaderSpecP Proofs.LogReaderDiscoveryP Proofs.LogReaderExamplesP.
+  Proofs.FileIndexOpsP Proofs.LogReaderP Proofs.LogReaderSpecP Proofs.LogReaderConditionsP Proofs.LogReaderExamplesP.
 Import ListNotations.
 Open Scope Z_scope.
 
@@ -18,41 +18,36 @@ Open Scope Z_scope.
 Definition C10_read_is_filter_full : Prop :=
   forall c f srcs types R, wf_file f -> read_log fixed c f srcs types R = Ok (spec_read c f srcs types R).
 
-(* It is false of the (faithful model of the) code in exactly the two ways recorded as known findings:
-   a time bound on a log without any P1 time raises IndexError, and source ids are discovered from a
-   sample.  Witness replayed on the implementation by the check (KNOWN-FINDING lines). *)
+(* It is false of the (faithful model of the) code in exactly one way, recorded as a known finding:
+   a time bound on a log without any P1 time raises IndexError (explicit library design).  The witness is
+   replayed on the implementation by the check (KNOWN-FINDING line). *)
 Theorem C10_read_is_filter_full_refuted : ~ C10_read_is_filter_full.
 Proof. exact read_is_filter_full_refuted. Qed.
 Print Assumptions C10_read_is_filter_full_refuted.
 
 Theorem C10_known_findings_witnesses :
   read_log fixed (cfg_of None false true false true false) ex3_file None None (Some (rel_range None (Some 240))) = Err IndexError /\
-  length (spec_read (cfg_of None false true false true false) ex3_file None None (Some (rel_range None (Some 240)))) = 3%nat /\
-  (exists l, read_log fixed (cfg_of None false true false true false) ex4_file (Some [1; 2]) None None = Ok l /\ length l = 11%nat) /\
-  length (spec_read (cfg_of None false true false true false) ex4_file (Some [1; 2]) None None) = 12%nat.
+  length (spec_read (cfg_of None false true false true false) ex3_file None None (Some (rel_range None (Some 240)))) = 3%nat.
 Proof. exact known_findings_witnesses. Qed.
 Print Assumptions C10_known_findings_witnesses.
 
-(* What is proved: the same statement under the two hypotheses that exclude those findings —
-   [range_has_t0]: a time range with a bound needs a P1 time among the indexed messages;
-   [discovery_complete]: the source filter left by the discovery step agrees with the request on the log.
-   Everything else is unrestricted: all logs, all type sets, source sets, ranges (absolute, relative,
-   preset t0, open ends), every max_bytes (incl. the block truncation of the index), all 32 return_* options.
-   The conclusion includes that the constructor and the iteration raise nothing. *)
+(* What is proved: the same statement modulo that finding — under the single hypothesis
+   [range_has_t0]: a time range with a bound needs a P1 time among the indexed messages.
+   Everything else is unrestricted: all logs, all type sets, ALL source sets (the request is applied as given
+   since the repair of the discovery sampling), ranges (absolute, relative, preset t0, open ends), every max_bytes
+   (incl. the block truncation of the index), all 32 return_* options.  The conclusion includes that the
+   constructor and the iteration raise nothing. *)
 Theorem C10_read_is_filter_partial : forall c f srcs types R,
-  wf_file f -> range_has_t0 c f R -> discovery_complete (with_range c R) f srcs ->
+  wf_file f -> range_has_t0 c f R ->
   read_log fixed c f srcs types R = Ok (spec_read c f srcs types R).
 Proof. exact read_is_filter_thm. Qed.
 Print Assumptions C10_read_is_filter_partial.
 
-(* The same under plain conditions on the log, which imply the two hypotheses above:
-   a time bound needs some P1-timed message that starts inside the indexed blocks (always the case without
-   max_bytes when the log has any P1 time), and a source filter needs that no message type occurs more than
-   populate_count (= the sample size of _populate_available_source_ids, regenerated from the source) times. *)
+(* The same with the hypothesis in plain terms: a time bound needs some P1-timed message that starts inside the
+   indexed blocks (always the case without max_bytes when the log has any P1 time). *)
 Theorem C10_read_is_filter_plain_conditions : forall c f srcs types R,
   wf_file f ->
   (bound_free R \/ exists m t, In m (f_msgs f) /\ m_time m = Some t /\ below (index_limit f (c_max_bytes c)) (m_off m) = true) ->
-  (srcs = None \/ forall ty, (count_type ty (f_msgs f) <= populate_count)%nat) ->
   read_log fixed c f srcs types R = Ok (spec_read c f srcs types R).
 Proof. exact read_is_filter_plain. Qed.
 Print Assumptions C10_read_is_filter_plain_conditions.
@@ -67,7 +62,6 @@ Print Assumptions C10_unfiltered_is_log.
    subsequence (file order) of the unfiltered read. *)
 Theorem C10_combined_is_intersection : forall c f srcs types R,
   wf_file f -> range_has_t0 c f R ->
-  discovery_complete (with_range c R) f srcs -> discovery_complete (with_range (no_limit c) None) f srcs ->
   exists l lt ls lb lr lu,
     read_log fixed c f srcs types R = Ok l /\
     read_log fixed (no_limit c) f None types None = Ok lt /\
@@ -111,7 +105,7 @@ Print Assumptions C10_range_outside_returns_nothing.
    message index: header and payload are those of message m, the bytes are file[m_off, m_off + m_size),
    the offset is m_off and the index is m's ordinal among all messages of the file. *)
 Theorem C10_result_pieces_consistent : forall c f srcs types R,
-  wf_file f -> range_has_t0 c f R -> discovery_complete (with_range c R) f srcs ->
+  wf_file f -> range_has_t0 c f R ->
   exists l, read_log fixed c f srcs types R = Ok l /\
     forall m ps, In (m, ps) l ->
       exists pre rest, f_msgs f = pre ++ m :: rest /\
@@ -127,16 +121,19 @@ Proof. exact getitem_spec. Qed.
 Print Assumptions C10_getitem_is_position_filter.
 
 (* Non-vacuity: a concrete log (E P1 E P2 E P3 E U) and filter combination meet every hypothesis, and the model
-   returns the one Event between the Pose at 2 s and the Pose at 3 s with all five pieces. *)
+   returns the one Event between the Pose at 2 s and the Pose at 3 s with all five pieces; on the log with a source
+   id first seen after 11 messages of its type the request {1, 2} returns all 12 messages. *)
 Example C10_nonvacuous :
-  (wf_file ex_file /\ range_has_t0 ex_c ex_file ex_R /\ discovery_complete (with_range ex_c ex_R) ex_file (Some [0]) /\
-   discovery_complete (with_range ex_c None) ex2_file (Some [5])) /\
+  (wf_file ex_file /\ range_has_t0 ex_c ex_file ex_R /\ wf_file ex4_file) /\
   read_log fixed ex_c ex_file (Some [0]) (Some [13004]) ex_R
   = Ok [(mkM 424 48 13004 0 None,
-         [PHeader (mkM 424 48 13004 0 None); PPayload (mkM 424 48 13004 0 None); PBytes 424 48; POffset 424; PIndex 4])].
-Proof. exact (conj ex_hypotheses ex_read_result). Qed.
+         [PHeader (mkM 424 48 13004 0 None); PPayload (mkM 424 48 13004 0 None); PBytes 424 48; POffset 424; PIndex 4])] /\
+  read_log fixed (cfg_of None false true false true false) ex4_file (Some [1; 2]) None None
+  = Ok (spec_read (cfg_of None false true false true false) ex4_file (Some [1; 2]) None None) /\
+  length (spec_read (cfg_of None false true false true false) ex4_file (Some [1; 2]) None None) = 12%nat.
+Proof. exact (conj ex_hypotheses (conj ex_read_result late_source_result)). Qed.
 
-(* What the code did before the four repairs made for this property (each found by the check first). *)
+(* What the code did before the five repairs made for this property (each found by the check first). *)
 Theorem C10_legacy_refuted :
   read_log legacy (cfg_of None true false false true false) ex_file None None None = Err UnboundLocalError /\
   (exists l, read_log legacy (cfg_of None false true false true false) ex_file None None (Some (abs_range (Some 80) (Some 160))) = Ok l /\ length l = 8%nat) /\
@@ -144,6 +141,8 @@ Theorem C10_legacy_refuted :
   (exists l, read_log legacy (cfg_of None false true false true false) ex_file None (Some [13004]) (Some (abs_range (Some 16) (Some 24))) = Ok l /\ length l = 4%nat) /\
   length (spec_read (cfg_of None false true false true false) ex_file None (Some [13004]) (Some (abs_range (Some 16) (Some 24)))) = 1%nat /\
   read_log legacy (cfg_of None false true false true false) ex2_file (Some [5]) None None = Ok [] /\
-  length (spec_read (cfg_of None false true false true false) ex2_file (Some [5]) None None) = 2%nat.
+  length (spec_read (cfg_of None false true false true false) ex2_file (Some [5]) None None) = 2%nat /\
+  (exists l, read_log (mkFx true true true true true true false) (cfg_of None false true false true false) ex4_file (Some [1; 2]) None None = Ok l /\ length l = 11%nat) /\
+  length (spec_read (cfg_of None false true false true false) ex4_file (Some [1; 2]) None None) = 12%nat.
 Proof. exact legacy_read_refuted. Qed.
 Print Assumptions C10_legacy_refuted.
